@@ -566,6 +566,29 @@ func init() {
 	reg("github.com/cosmos/cosmos-sdk/telemetry.IncrCounter", func(e *Exec, fn *ssa.Function, a []Value) Value { return nil })
 	reg("github.com/cosmos/cosmos-sdk/types.MsgTypeURL", func(e *Exec, fn *ssa.Function, a []Value) Value { return "/msg" })
 
+	reg("github.com/cosmos/gogoproto/proto.EnumName", func(e *Exec, fn *ssa.Function, a []Value) Value {
+		m, _ := a[0].(*MapVal)
+		v := a[1].(*Term)
+		if m != nil {
+			for i, k := range m.keys {
+				c := e.tc.Eq(k.(*Term), v)
+				if c.IsConst() {
+					if c.b {
+						return m.vals[i]
+					}
+					continue
+				}
+				if e.branch(c) {
+					return m.vals[i]
+				}
+			}
+		}
+		if v.IsConst() {
+			return v.val.String()
+		}
+		return &SymStr{kind: "int", t: v}
+	})
+
 	// codec Any
 	reg("github.com/cosmos/cosmos-sdk/codec/types.NewAnyWithValue", func(e *Exec, fn *ssa.Function, a []Value) Value {
 		itf := a[0].(Iface)
